@@ -94,6 +94,11 @@ def gen_case(seed: int, tier: str, index: int) -> Dict[str, Any]:
                 for seg in rng.sample(range(27), rng.choice([1, 1, 2, 5])):
                     rules.append({"verb": "STATV", "dir": "s2c", "seg": seg, "skip": 0, "n": 1})
         total += kc
+        if rng.random() < 0.3:
+            # the simulator's own unreliability (it declines requests and single segments at random) instead of scripted network loss:
+            # no bound on the number of attempts can be promised then, so only "connected implies an identical block" is judged
+            rules = []
+            cfg["sim_reliability"] = rng.choice([0.95, 0.98, 0.99])
         cfg["net"]["rules"] = rules
         cfg.update(T=T, lost_attempts=total, snapshot=snapshot_files()[rng.randrange(len(snapshot_files()))].split("/")[-1])
     plan.sort(key=lambda o: (o.get("t", 0), o.get("caller", 0), o.get("j", 0))) if sub == "sends" else None
@@ -425,6 +430,9 @@ def sub_handshake(world: WorldT) -> None:
         sim = make_simulator()
         sim.set_snapshot(load_snapshot(os.path.join(repo_root(), "tests", "snapshots", cfg["snapshot"])))
         sim.do_start("")
+    unreliable = cfg.get("sim_reliability")
+    if unreliable:
+        sim._reliability = unreliable
     desc = GeckoSpaDescriptor(b"IOSverif-T", b"SPA01:02:03:04:05:06", "Udp Test Spa", (SPA_IP, SPA_PORT))
     spa = GeckoSpa(desc)
     t0 = world.now()
@@ -440,9 +448,19 @@ def sub_handshake(world: WorldT) -> None:
         except RuntimeError as e:
             state["err"] = repr(e)
             return True
-    ok = world.wait_until(connected, min(bound, 44.0), step=0.05)
+    ok = world.wait_until(connected, 44.0 if cfg.get("sim_reliability") else min(bound, 44.0), step=0.05)
     ctx = f"T={T} lost_attempts={lost} rules={cfg['net']['rules'][:6]} snapshot={cfg['snapshot']}"
     fired = res.faults.get("scripted_drop", 0)
+    if unreliable and (state["err"] or not ok or not spa._is_connected):
+        res.probe("unreliable_simulator_handshake_not_completed")
+        spa.complete()
+        sim._socket.close()
+        res.nontrivial = False
+        res.shape = "unreliable-incomplete"
+        res.sample = {"sub": "handshake", "unreliable": unreliable, "connected": False}
+        return
+    if unreliable:
+        res.probe("unreliable_simulator_handshake_completed")
     if state["err"] or not ok or not spa._is_connected:
         world.violate(PROP, "handshake-failed", f"{ctx}: not connected {world.now() - t0:.1f}s after start_connect (bound {bound:.1f}s, "
                       f"{fired} datagrams dropped by the script); error={state['err']}; thread errors={world.sched.thread_errors[:2]}")
@@ -456,9 +474,9 @@ def sub_handshake(world: WorldT) -> None:
     world.sleep(1.0)
     spa.complete()
     sim._socket.close()
-    res.nontrivial = fired > 0
-    res.faultfree = not cfg["net"]["rules"]
-    res.shape = format(mix(0, repr((cfg["net"]["rules"], T))), "x")
+    res.nontrivial = fired > 0 or bool(unreliable)
+    res.faultfree = not cfg["net"]["rules"] and not unreliable
+    res.shape = format(mix(0, repr((cfg["net"]["rules"], T, unreliable, round(world.now() - t0, 1)))), "x")
     res.sample = {"sub": "handshake", "T": T, "lost_attempts": lost, "connected_after": round(world.now() - t0, 2), "dropped": fired}
 
 
@@ -488,7 +506,7 @@ ASSUMPTIONS = [
     "registration changes are made between datagrams, so 'the first registered handler that accepts it' is unambiguous",
     "the ping thread may die of the 45 s connection timeout in long loss patterns; the statement is about the handshake",
 ]
-PROBES = ["backlog_longer_than_timeout", "incoming_traffic_while_sending", "multi_caller", "preempted_inside_udp_socket", "handler_removed_while_running", "no_handler_accepts", "handler_raised_in_handle",
+PROBES = ["backlog_longer_than_timeout", "unreliable_simulator_handshake_completed", "incoming_traffic_while_sending", "multi_caller", "preempted_inside_udp_socket", "handler_removed_while_running", "no_handler_accepts", "handler_raised_in_handle",
           "handler_raised_in_handled", "unanswered", "answered", "answer_after_removal", "handshake_with_losses", "segment_lost_during_handshake"]
 N_QUICK = 4800
 
